@@ -17,7 +17,10 @@ B3  every crossing (the B2 ones, and every Edfa crossing inside the real gnpy.to
     OutOfBand); NF gain sweeps of every amplifier entry of every shipped library (single and dual stage, from 4 dB below
     the minimum gain to 3 dB into the extended range) are judged as "Sweep" histories (NfMinAtFlatMax, NfMaxAtGainMin,
     NonIncreasing for min/max-NF models; NonIncreasingExtended for every model; ClampAboveMax for the polynomial model;
-    DbForDbBelowMin for single-stage models).
+    DbForDbBelowMin for single-stage models; DualCascade: a dual stage's linear NF = NF(preamp at its maximum flat
+    gain) + NF(booster at gain - g1) / g1 with the stage amplifiers crossed alone, also where gain - g1 is negative).
+    Load shapes include a single in-band channel of a wider spectrum and out-of-band channels whose slot edge lies
+    0.5 / 1 GHz beyond the amplifier band.
 """
 import copy
 import json
@@ -36,7 +39,8 @@ from harness.record import Recording
 SYNTHETIC = {"type_variety": "verif_vg", "type_def": "variable_gain", "gain_flatmax": 22, "gain_min": 12, "p_max": 19,
              "nf_min": 6.5, "nf_max": 11, "out_voa_auto": False, "allowed_for_design": False}
 F0_IN = 191.35e12          # first in-band channel of the default amplifier band [191.275, 196.125] THz
-OOB = [190.0e12, 197.0e12]  # channels outside every C-band amplifier of the library
+OOB = [190.0e12, 197.0e12]  # channels far outside every C-band amplifier of the library
+BAND = (191.275e12, 196.125e12)     # band of the instantiated amplifiers (asserted in check_library_matches)
 
 
 def cfg_text(maxcross, emit=False, pins='MCPinTots'):
@@ -83,8 +87,8 @@ def check_library_matches(amp):
     if _EQ is None:
         _EQ = _equipment_from_json(copy.deepcopy(library_json()), DEFAULT_EXTRA_CONFIG)
     e = _EQ['Edfa'][amp['id']]
-    got = (e.type_def, udb(e.gain_min), udb(e.gain_flatmax), udb(e.p_max))
-    exp = (amp['typeDef'], amp['gainMin'], amp['flatMax'], amp['pMax'])
+    got = (e.type_def, udb(e.gain_min), udb(e.gain_flatmax), udb(e.p_max), e.bands[0]['f_min'], e.bands[0]['f_max'])
+    exp = (amp['typeDef'], amp['gainMin'], amp['flatMax'], amp['pMax'], BAND[0], BAND[1])
     if got != exp:
         raise Machinery(f'MC_AmpLaw constants for {amp["id"]} {exp} differ from the library {got}')
 
@@ -100,7 +104,9 @@ def load_si(pin_raw_udb, var, grid=0):
     shape = np.linspace(-2.0, 2.0, n) if var['ramp'] else np.zeros(n)
     w = 10 ** (shape / 10)
     p_in = w / w.sum() * 1e-3 * 10 ** (pin_raw_udb / 1e7)
-    f = np.concatenate([f_in, OOB[:var['nOut']]])
+    # out-of-band channels: far outside, or with their slot edge 0.5 GHz below f_min / 1 GHz above f_max
+    oob = [BAND[0] + 25e9 - 0.5e9, BAND[1] - 25e9 + 1e9] if var['edge'] else OOB
+    f = np.concatenate([f_in, oob[:var['nOut']]])
     p = np.concatenate([p_in, np.full(var['nOut'], p_in.mean())])
     return create_arbitrary_spectral_information(frequency=f, pch=p, baud_rate=32e9, slot_width=50e9, tx_osnr=40,
                                                  tx_power=p, roll_off=0.15)
@@ -250,14 +256,28 @@ def sweep_traces(chk, synthetic):
             rip_tab = np.atleast_1d(np.asarray(lib.nf_ripple, dtype=float))
             nf_rip = np.interp(freqs, np.linspace(fmin, fmax, len(rip_tab)), rip_tab)
             pts = []
+
+            def crossed(variety, gain):
+                topo = {'elements': [{'uid': 'a', 'type': 'Edfa', 'type_variety': variety,
+                                      'operational': {'gain_target': gain, 'tilt_target': 0, 'out_voa': 0}}], 'connections': []}
+                x = next(iter(network_from_json(topo, eq).nodes()))
+                x(create_arbitrary_spectral_information(frequency=freqs, pch=pch, baud_rate=32e9, slot_width=50e9,
+                                                        tx_osnr=40, tx_power=pch))
+                return x
+
+            def avg_nf(x):
+                tab = np.atleast_1d(np.asarray(x.params.nf_ripple, dtype=float))
+                return float(np.mean(np.asarray(x.nf) - np.interp(freqs, np.linspace(fmin, fmax, len(tab)), tab)))
+            # dual stage: the two stage amplifiers are also crossed alone (preamp at its maximum flat gain g1, booster at
+            # gain - g1); their NF models must not depend on the input power (not the OpenROADM ones)
+            stages = None
+            if tdef == 'dual_stage':
+                pre_v, boo_v = ent['preamp_variety'], ent['booster_variety']
+                if not any(eq['Edfa'][v].type_def.startswith('openroadm') for v in (pre_v, boo_v)):
+                    stages = (pre_v, boo_v, float(eq['Edfa'][pre_v].gain_flatmax))
             for g in gains:
-                topo = {'elements': [{'uid': 'a', 'type': 'Edfa', 'type_variety': tv,
-                                      'operational': {'gain_target': g, 'tilt_target': 0, 'out_voa': 0}}], 'connections': []}
-                el = next(iter(network_from_json(topo, eq).nodes()))
-                si = create_arbitrary_spectral_information(frequency=freqs, pch=pch, baud_rate=32e9, slot_width=50e9,
-                                                           tx_osnr=40, tx_power=pch)
                 try:
-                    el(si)
+                    el = crossed(tv, g)
                 except Exception as ex:                                  # noqa
                     chk.violation(f'sweep|{tdef}|exception|{type(ex).__name__}',
                                   dict(library=fname, entry=tv, gain=g, exception=traceback.format_exc()[-1200:]))
@@ -266,12 +286,19 @@ def sweep_traces(chk, synthetic):
                 if abs(el.effective_gain - g) > 1e-9:
                     raise Machinery(f'sweep of {tv}: gain clamped at {g}')
                 nf_avg = float(np.mean(np.asarray(el.nf) - nf_rip))
-                pts.append({'g': udb(g), 'nf': udb(nf_avg)})
+                pt = {'g': udb(g), 'nf': udb(nf_avg)}
+                if stages:
+                    g1 = stages[2]
+                    nf1, nf2 = avg_nf(crossed(stages[0], g1)), avg_nf(crossed(stages[1], g - g1))
+                    pt.update({'nfLin': L.iround(1e6 * 10 ** (nf_avg / 10)), 'nf1Lin': L.iround(1e6 * 10 ** (nf1 / 10)),
+                               'nf2g1Lin': L.iround(1e6 * 10 ** ((nf2 - g1) / 10))})
+                pts.append(pt)
             if pts is None:
                 continue
             is_mm = 1 if tdef == 'variable_gain' else 0
             ev = {'k': 'Sweep', 'typeDef': tdef, 'gainMin': udb(gmin), 'flatMax': udb(gmax), 'minmax': is_mm,
                   'poly': 1 if tdef == 'advanced_model' else 0, 'dual': 1 if tdef == 'dual_stage' else 0,
+                  'cascade': 1 if stages else 0,
                   'nfMin': udb(ent.get('nf_min', 0)) if is_mm else 0, 'nfMax': udb(ent.get('nf_max', 0)) if is_mm else 0,
                   'pts': pts}
             traces.append({'name': f'sweep {fname} {tv}', 'ev': [ev]})
